@@ -155,20 +155,51 @@ impl AckFrame {
 
     /// Iterate through the sequence numbers of the packets acknowledged by the iterative ACK frame,
     /// starting from the largest and going down.
+    ///
+    /// The fields come from the peer: if they describe a negative packet number
+    /// (see [`AckFrame::has_negative_pn`]) the iteration is cut off at packet number 0
+    /// instead of wrapping around.
     pub fn iter(&self) -> impl Iterator<Item = RangeInclusive<u64>> + '_ {
         let right = self.largest.into_u64();
-        let left = right - self.first_range.into_u64();
+        let left = right.saturating_sub(self.first_range.into_u64());
         Some(left..=right).into_iter().chain(
             self.ranges
                 .iter()
                 .map(|(gap, range)| (gap.into_u64(), range.into_u64()))
                 .scan(left, |largest, (gap, range)| {
-                    let right = *largest - gap - 2;
-                    let left = right - range;
+                    let right = largest.checked_sub(gap)?.checked_sub(2)?;
+                    let left = right.saturating_sub(range);
                     *largest = left;
                     Some(left..=right)
                 }),
         )
+    }
+
+    /// Whether some packet number computed from the ranges of this frame is negative.
+    ///
+    /// If any computed packet number is negative, an endpoint MUST generate a connection error
+    /// of type FRAME_ENCODING_ERROR.
+    /// See [Section 19.3.1](https://www.rfc-editor.org/rfc/rfc9000.html#section-19.3.1-7)
+    /// of [QUIC](https://www.rfc-editor.org/rfc/rfc9000.html).
+    pub fn has_negative_pn(&self) -> bool {
+        let Some(mut smallest) = self
+            .largest
+            .into_u64()
+            .checked_sub(self.first_range.into_u64())
+        else {
+            return true;
+        };
+        for (gap, range) in &self.ranges {
+            match smallest
+                .checked_sub(gap.into_u64())
+                .and_then(|n| n.checked_sub(2))
+                .and_then(|n| n.checked_sub(range.into_u64()))
+            {
+                Some(n) => smallest = n,
+                None => return true,
+            }
+        }
+        false
     }
 }
 
